@@ -9,6 +9,7 @@ package main
 import (
 	"bytes"
 	"fmt"
+	"io"
 	"os"
 	"strings"
 	"testing"
@@ -26,8 +27,8 @@ func TestMain(m *testing.M) {
 	case "C16":
 		harness.Run(&harness.Prop{
 			ID: "C16",
-			Rule: "the shipped start() of rtcmlogger (in-package harness) under the controlled scheduler with stdin, stdout and the daily record writer owned by the harness (every Read and Write a scheduling point); inputs {empty, 1 byte, 3 bytes with 00 and D3, 5 bytes, 8095, 8096, 8097 and 16193 bytes}; stdin chunkings {everything the buffer takes, 1 byte, 2 bytes} for the small inputs and {buffer-full, 8095, 4000} for the large ones (all chunkings in the unbounded pass); event logging off/on; two scenarios in which the record writer fails on every call (the pass-through must still complete); every interleaving of the copying loop and the recorder goroutine. Oracle at the instant start() returns (the process exits next): stdout == stdin and record == stdin; the recorder has terminated at quiescence; no panic. Non-trivial = distinct schedule trace",
-			Assumptions: []string{"dailylogger.New is redirected to an in-memory sink: file naming/rotation belong to the go-tools dependency; what is decided is what the program hands to that writer before it exits", "stdin errors other than EOF are not injected"},
+			Rule: "the shipped start() of rtcmlogger (in-package harness) under the controlled scheduler with stdin, stdout and the daily record writer owned by the harness (every Read and Write a scheduling point); inputs {empty, 1 byte, 3 bytes with 00 and D3, 5 bytes, 8095, 8096, 8097 and 16193 bytes}; stdin chunkings {everything the buffer takes, 1 byte, 2 bytes} for the small inputs and {buffer-full, 8095, 4000} for the large ones (all chunkings in the unbounded pass); event logging off/on; two scenarios in which the record writer fails on every call (the pass-through must still complete); every interleaving of the copying loop and the recorder goroutine; and, under the default schedule, 96 start-up environments with the record in REAL files of a scratch directory: host time zone {UTC, UTC+13, UTC-11, UTC+11:30} (local date equal to, ahead of, behind the UTC date) x record directory {absent, today's record already holds data, empty records of yesterday/today/tomorrow, nested directory to be created} x input {0, 5, 8097 bytes} x event logging off/on, oracle: the file named for the local date in the configured directory holds (old content +) stdin when start() returns. Oracle at the instant start() returns (the process exits next): stdout == stdin and record == stdin; the recorder has terminated at quiescence; no panic. Non-trivial = distinct schedule trace",
+			Assumptions: []string{"dailylogger.New is redirected to an in-memory sink (schedule scenarios) or to a file-backed stand-in that keeps its contract - <dir>/<leader><local date><trailer>, created at construction, opened for appending, directory created on demand (record-file scenarios); rotation at midnight belongs to the go-tools dependency", "stdin errors other than EOF are not injected"},
 			Scenarios:      scenarios,
 			QuickBudget:    45 * time.Second,
 			ThoroughBudget: 6 * time.Minute,
@@ -167,6 +168,162 @@ func scenarios(tier string) []*mcrt.Scenario {
 				return nil
 			},
 		})
+	}
+	scs = append(scs, fileScenarios()...)
+	return scs
+}
+
+// fileSink stands in for the go-tools daily writer with its contract kept:
+// the record is the file <dir>/<leader><local date><trailer>, created when the
+// writer is made and opened for appending.  The date comes from the same
+// (virtual) clock the program sees.
+type fileSink struct {
+	f       *os.File
+	noYield bool // the event log is written under log/slog's own mutex
+}
+
+func (w *fileSink) Write(b []byte) (int, error) {
+	if !w.noYield {
+		mcrt.Yield("record file write")
+	}
+	return w.f.Write(b)
+}
+
+type fileSinks struct{ open []*os.File }
+
+func (fs *fileSinks) New(dir, leader, trailer string) io.Writer {
+	if dir == "" {
+		dir = "."
+	}
+	_ = os.MkdirAll(dir, 0o755)
+	now := mcrt.Now().In(time.Local)
+	name := fmt.Sprintf("%s/%s%04d-%02d-%02d%s", dir, leader, now.Year(), int(now.Month()), now.Day(), trailer)
+	f, err := os.OpenFile(name, os.O_APPEND|os.O_CREATE|os.O_WRONLY, 0o644)
+	if err != nil {
+		panic("harness: " + err.Error())
+	}
+	fs.open = append(fs.open, f)
+	return &fileSink{f, trailer == ".log"}
+}
+
+type fileObs struct {
+	out      *hsink.Sink
+	returned bool
+	outAtRet []byte
+	recAtRet []byte
+	listing  string
+}
+
+// fileScenarios: what is in message_log_directory once start() has returned,
+// over the states of the outside world the program can meet at start-up: the
+// time zone of the host (local date equal to, ahead of and behind the UTC
+// date), and a record directory that is absent, or already holds today's
+// record with data, or holds empty records of today and the neighbouring days.
+func fileScenarios() []*mcrt.Scenario {
+	var scs []*mcrt.Scenario
+	zones := []struct {
+		name string
+		off  int
+	}{{"UTC", 0}, {"UTC+13", 13 * 3600}, {"UTC-11", -11 * 3600}, {"UTC+11:30", 11*3600 + 1800}}
+	pres := []string{"absent", "todays-record-has-data", "empty-records-of-three-days", "subdirectory-missing-parents"}
+	for _, z := range zones {
+		for _, pre := range pres {
+			for _, n := range []int{0, 5, 8097} {
+				for _, le := range []bool{false, true} {
+					z, pre, n, le := z, pre, n, le
+					input := pattern(n)
+					old := []byte("OLD-DATA")
+					scs = append(scs, &mcrt.Scenario{
+						Name:  fmt.Sprintf("record-files zone=%s dir=%s input=%dB logevents=%v", z.name, pre, n, le),
+						Bound: 0, Horizon: 200000, DefaultOnly: true,
+						Body: func(x *mcrt.X) {
+							obs := &fileObs{out: &hsink.Sink{Name: "stdout"}}
+							x.Data = obs
+							root, err := os.MkdirTemp("", "c16fs")
+							if err != nil {
+								panic("harness: " + err.Error())
+							}
+							defer os.RemoveAll(root)
+							savedLocal := time.Local
+							time.Local = time.FixedZone(z.name, z.off)
+							defer func() { time.Local = savedLocal }()
+							dir := root + "/logs"
+							if pre == "subdirectory-missing-parents" {
+								dir = root + "/a/b/logs"
+							}
+							day := func(d int) string {
+								t := mcrt.Now().In(time.Local).AddDate(0, 0, d)
+								return fmt.Sprintf("%s/rtcmlogger.%04d-%02d-%02d.rtcm", dir, t.Year(), int(t.Month()), t.Day())
+							}
+							var want []byte
+							switch pre {
+							case "todays-record-has-data":
+								_ = os.MkdirAll(dir, 0o755)
+								_ = os.WriteFile(day(0), old, 0o644)
+								want = append(want, old...)
+							case "empty-records-of-three-days":
+								_ = os.MkdirAll(dir, 0o755)
+								for d := -1; d <= 1; d++ {
+									_ = os.WriteFile(day(d), nil, 0o644)
+								}
+							}
+							want = append(want, input...)
+							reportingReadErrors, reportingEventLogWriteErrors, reportingLogWriteErrors = true, true, true
+							eventLogger = nil
+							fs := &fileSinks{}
+							defer func() {
+								for _, f := range fs.open {
+									f.Close()
+								}
+							}()
+							mcrt.NewDailySink = fs.New
+							mcrt.Stdin = &hsink.ChunkReader{Data: input, Sizes: []int{0}, Reset: true}
+							mcrt.Stdout = obs.out
+							start(&config.Config{MessageLogDirectory: dir, LogEvents: le, EventLogDirectory: root + "/events"})
+							obs.outAtRet = append([]byte{}, obs.out.Buf...)
+							// the day's record as a user finds it: by name, in the configured directory
+							obs.recAtRet, _ = os.ReadFile(day(0))
+							if ents, err := os.ReadDir(dir); err == nil {
+								for _, e := range ents {
+									st, _ := e.Info()
+									obs.listing += fmt.Sprintf("%s(%d) ", e.Name(), st.Size())
+								}
+							} else {
+								obs.listing = err.Error()
+							}
+							obs.returned = true
+							_ = want
+						},
+						Check: func(x *mcrt.X) *mcrt.Failure {
+							obs := x.Data.(*fileObs)
+							if len(x.Panics) > 0 {
+								p := x.Panics[0]
+								return &mcrt.Failure{Kind: "panic in " + p.Thread + ": " + first(p.Value) + " @" + p.Site, Detail: p.Stack}
+							}
+							if !obs.returned {
+								return &mcrt.Failure{Kind: "start-did-not-return end=" + x.End, Detail: fmt.Sprint(x.Blocked)}
+							}
+							if !bytes.Equal(obs.outAtRet, input) {
+								return &mcrt.Failure{Kind: "stdout-differs-from-stdin", Detail: fmt.Sprintf("%d bytes out, %d bytes in", len(obs.outAtRet), len(input))}
+							}
+							want := append([]byte{}, input...)
+							if pre == "todays-record-has-data" {
+								want = append(append([]byte{}, old...), input...)
+							}
+							if !bytes.Equal(obs.recAtRet, want) {
+								return &mcrt.Failure{Kind: "days-record-file-in-the-configured-directory-differs-from-stdin",
+									Detail: fmt.Sprintf("record file holds %d bytes, expected %d; directory: %s", len(obs.recAtRet), len(want), obs.listing)}
+							}
+							if x.End != mcrt.EndAllDone {
+								return &mcrt.Failure{Kind: "recorder-did-not-terminate", Detail: fmt.Sprint(x.Blocked)}
+							}
+							harness.Outcome("record file complete")
+							return nil
+						},
+					})
+				}
+			}
+		}
 	}
 	return scs
 }
